@@ -7,6 +7,11 @@
 //!  * tile-data preservation of `convert_wdt` / `convert_wdl_file` for all version pairs,
 //!  * `world_to_tile(tile_to_world(x,y)) == (x,y)` for all 4096 tiles.
 //!
+//! The thorough tier additionally runs the later versions the crates declare, full products of the
+//! object / model-list shapes, lists with counts and name lengths around 255/256/65535/65536
+//! (`wdt_objects`, `wdl_models`), every state of a 9-tile universe (`wdl_subsets`) and conversion
+//! chains that start from parsed states (`wdt_chain`, `wdl_chain`); see `THOROUGH_RULE`.
+//!
 //! `c18 --repro coords` prints a stand-alone reproduction of the coordinate finding;
 //! `c18 --repro autodetect` one of the (unjudged) observation that the auto-detecting WDL parser mislabels a file.
 mod walker;
@@ -172,10 +177,6 @@ fn main() {
         c.assume("thorough tier: the versions beyond the property's list (WDT Shadowlands/Dragonflight; WDL Bfa/Shadowlands/Dragonflight/Latest) are judged by the same oracles; for WDL `Latest` (the auto-detecting placeholder) the version field itself is not compared because the parser replaces it by the detected version");
         c.assume("thorough tier: WDL MWID entry count and the MLDD/MLDX and MLMD/MLMX record counts are independent lists in the file format; definitions with unequal counts are valid inputs of the writer");
         c.assume("thorough tier, chains: tile data must survive write->parse->convert->write->parse->convert (WDT: MAIN entries, and MAID ids when every version on the path has the chunk; WDL: heights, and hole masks when every version on the path stores them); the chained result must agree with the direct conversion in tile data, where a WDL tile without a hole record and a tile with the all-ones mask (the converter's own default) both mean 'no holes'; differences in header flags / model lists between the two paths are counted, not judged");
-    }
-    if let Ok(only) = std::env::var("C18_DEV_ONLY_SPACES") {
-        // development aid: restrict the run to some spaces (never set by ./check)
-        spaces.retain(|s| only.split(',').any(|o| o == *s));
     }
     for s in spaces {
         c.run_space(s, "");
